@@ -152,18 +152,18 @@ def decNumberRest (r : Bytes) : Nat :=
   n1 + n2 + n3
 
 /-- `asm_number_literal`; `first` = the first digit, `r` the rest -/
-def asmNumberRest (first : UInt8) (r : Bytes) : Nat × RawKind :=
+def asmNumberRest (first : UInt8) (r : Bytes) : Nat × NumberLiteralKind :=
   let n := countHex r
   match r.drop n with
   | b :: _ =>
-    if b == 0x4F || b == 0x6F then (n + 1, .rNumberLiteral .nOctal)
-    else if b == 0x48 || b == 0x68 then (n + 1, .rNumberLiteral .nHex)
+    if b == 0x4F || b == 0x6F then (n + 1, .nOctal)
+    else if b == 0x48 || b == 0x68 then (n + 1, .nHex)
     else
       let prev := if n == 0 then first else r.getD (n - 1) 0
-      if prev == 0x42 || prev == 0x62 then (n, .rNumberLiteral .nBinary) else (n, .rNumberLiteral .nDecimal)
+      if prev == 0x42 || prev == 0x62 then (n, .nBinary) else (n, .nDecimal)
   | [] =>
     let prev := if n == 0 then first else r.getD (n - 1) 0
-    if prev == 0x42 || prev == 0x62 then (n, .rNumberLiteral .nBinary) else (n, .rNumberLiteral .nDecimal)
+    if prev == 0x42 || prev == 0x62 then (n, .nBinary) else (n, .nDecimal)
 
 /-! ### text literals -/
 
@@ -217,39 +217,39 @@ def consumeEscapedChars : Nat → Bytes → ParseState
     | _ => .cont 0
 
 /-- the alternating loop of `text_literal` -/
-def textLiteralLoop : Nat → Bytes → Nat × RawKind
-  | 0, _ => (0, .rTextLiteral .tSingleLine)
+def textLiteralLoop : Nat → Bytes → Nat × TextLiteralKind
+  | 0, _ => (0, .tSingleLine)
   | fuel + 1, l =>
     match consumeEscapedChars (l.length + 1) l with
-    | .unterminated n => (n, .rTextLiteral .tUnterminated)
-    | .stop n => (n, .rTextLiteral .tSingleLine)
+    | .unterminated n => (n, .tUnterminated)
+    | .stop n => (n, .tSingleLine)
     | .cont n =>
       let l' := l.drop n
       match consumePascalStr l' with
-      | .unterminated m => (n + m, .rTextLiteral .tUnterminated)
-      | .stop m => (n + m, .rTextLiteral .tSingleLine)
+      | .unterminated m => (n + m, .tUnterminated)
+      | .stop m => (n + m, .tSingleLine)
       | .cont m =>
         let (k, kind) := textLiteralLoop fuel (l'.drop m)
         (n + m + k, kind)
 
 /-- `text_literal`; `l` starts at the first byte of the literal (`'` or `#`) -/
-def textLiteral (l : Bytes) : Nat × RawKind :=
+def textLiteral (l : Bytes) : Nat × TextLiteralKind :=
   let qc := countWhile (· == 0x27) l
   let afterQ := l.drop qc
   if qc ≥ 3 && qc % 2 == 1 && (match afterQ with | b :: _ => b == 0x0D || b == 0x0A | [] => false) then
     match findSub (l.take qc) afterQ with
-    | some pos => (qc + pos + qc, .rTextLiteral .tMultiLine)
-    | none => (l.length, .rTextLiteral .tUnterminated)
+    | some pos => (qc + pos + qc, .tMultiLine)
+    | none => (l.length, .tUnterminated)
   else textLiteralLoop (l.length + 1) l
 
 /-- `asm_text_literal`; `r` = bytes after the opening `"`; returns bytes consumed from `r` -/
-def asmTextLiteralRest : Bytes → Nat × RawKind
-  | [] => (0, .rTextLiteral .tUnterminated)
-  | 0x5C :: [] => (1, .rTextLiteral .tUnterminated)
+def asmTextLiteralRest : Bytes → Nat × TextLiteralKind
+  | [] => (0, .tUnterminated)
+  | 0x5C :: [] => (1, .tUnterminated)
   | 0x5C :: _ :: r => let (n, k) := asmTextLiteralRest r; (n + 2, k)
-  | 0x22 :: _ => (1, .rTextLiteral .tAsm)
+  | 0x22 :: _ => (1, .tAsm)
   | b :: r =>
-    if b == 0x0A || b == 0x0D then (0, .rTextLiteral .tUnterminated)
+    if b == 0x0A || b == 0x0D then (0, .tUnterminated)
     else let (n, k) := asmTextLiteralRest r; (n + 1, k)
 
 /-! ### comments and directives -/
@@ -341,7 +341,7 @@ def findDirectiveExprEnd (trim : Nat) : Nat → BlockCommentKind → Bytes → O
 
 /-- `parse_directive_expr`; `l` starts at the directive name (after `{$` / `(*$`). -/
 def parseDirectiveExpr (trim : Nat) (fuel : Nat) (kind : BlockCommentKind) (l : Bytes) :
-    RawKind × Option (Option Nat) :=
+    Option ConditionalDirectiveKind × Option (Option Nat) :=
   let (nameLen, cdk) := conditionalDirectiveType l
   let r := l.drop nameLen
   let addName : Option (Option Nat) → Option (Option Nat)
@@ -349,10 +349,10 @@ def parseDirectiveExpr (trim : Nat) (fuel : Nat) (kind : BlockCommentKind) (l : 
     | some none => some none
     | some (some e) => some (some (nameLen + e))
   match cdk with
-  | some .dIf => (.rConditionalDirective .dIf, addName (findDirectiveExprEnd trim fuel kind r))
-  | some .dElseif => (.rConditionalDirective .dElseif, addName (findDirectiveExprEnd trim fuel kind r))
-  | some c => (.rConditionalDirective c, addName (some (findBlockCommentEnd kind r)))
-  | none => (.rCompilerDirective, addName (some (findBlockCommentEnd kind r)))
+  | some .dIf => (some .dIf, addName (findDirectiveExprEnd trim fuel kind r))
+  | some .dElseif => (some .dElseif, addName (findDirectiveExprEnd trim fuel kind r))
+  | some c => (some c, addName (some (findBlockCommentEnd kind r)))
+  | none => (none, addName (some (findBlockCommentEnd kind r)))
 
 /-- enough fuel for every call tree of `findDirectiveExprEnd` on `l` -/
 def directiveFuel (l : Bytes) : Nat := 2 * l.length + 2
@@ -360,7 +360,7 @@ def directiveFuel (l : Bytes) : Nat := 2 * l.length + 2
 /-- `compiler_directive`; `l` = bytes after `{$`/`(*$`, `openLen` = 2 or 3, `tokLen` = length of
     the bytes from the token start to the end of input.  `none` = out of fuel. -/
 def compilerDirective (trim : Nat) (kind : BlockCommentKind) (openLen tokLen : Nat) (l : Bytes) :
-    Option (Nat × RawKind) :=
+    Option (Nat × Option ConditionalDirectiveKind) :=
   match parseDirectiveExpr trim (directiveFuel l) kind l with
   | (_, none) => none
   | (tt, some (some e)) => some (openLen + e, tt)
@@ -371,10 +371,15 @@ def blockCommentKind (nlBefore nlInside : Bool) : CommentKind :=
 
 /-- `_block_comment`; `l` = bytes after the opener -/
 def blockComment (trim : Nat) (kind : BlockCommentKind) (openLen tokLen : Nat) (nlBefore : Bool)
-    (l : Bytes) : Nat × RawKind :=
+    (l : Bytes) : Nat × CommentKind :=
   match findBlockCommentEnd kind l with
-  | some e => (openLen + e, .rComment (blockCommentKind nlBefore (containsByte 0x0A (l.take e))))
-  | none => (tokLen - trim, .rComment .cMultilineBlock)
+  | some e => (openLen + e, blockCommentKind nlBefore (containsByte 0x0A (l.take e)))
+  | none => (tokLen - trim, .cMultilineBlock)
+
+/-- kind of a `{$…}` token: conditional directive or plain compiler directive -/
+def dirKind : Option ConditionalDirectiveKind → RawKind
+  | some c => .rConditionalDirective c
+  | none => .rCompilerDirective
 
 /-! ### dispatch -/
 
@@ -426,20 +431,20 @@ def runSub (st : LexState) (sub : SubLexer) (b : UInt8) (r : Bytes) (nlBefore : 
   | .l_paren =>
     (match r with
      | 0x2A :: 0x24 :: r' =>
-       (compilerDirective (trimF ()) .parenStar 3 (r.length + 1) r').map fun (n, k) => { len := n, kind := k, inAsm := st.inAsm }
+       (compilerDirective (trimF ()) .parenStar 3 (r.length + 1) r').map fun (n, k) => { len := n, kind := dirKind k, inAsm := st.inAsm }
      | 0x2A :: r' =>
        let (n, k) := blockComment (trimF ()) .parenStar 2 (r.length + 1) nlBefore r'
-       keep n k
+       keep n (.rComment k)
      | 0x2E :: _ => op 2 .oLBrack
      | _ => op 1 .oLParen)
   | .l_brace =>
     (match r with
      | 0x24 :: r' =>
-       (compilerDirective (trimF ()) .brace 2 (r.length + 1) r').map fun (n, k) => { len := n, kind := k, inAsm := st.inAsm }
+       (compilerDirective (trimF ()) .brace 2 (r.length + 1) r').map fun (n, k) => { len := n, kind := dirKind k, inAsm := st.inAsm }
      | _ =>
        let (n, k) := blockComment (trimF ()) .brace 1 (r.length + 1) nlBefore r
-       keep n k)
-  | .text_literal => let (n, k) := textLiteral (b :: r); keep n k
+       keep n (.rComment k))
+  | .text_literal => let (n, k) := textLiteral (b :: r); keep n (.rTextLiteral k)
   | .ampersand =>
     let a := countWhile (· == 0x26) r
     (match r.drop a with
@@ -468,8 +473,8 @@ def runSub (st : LexState) (sub : SubLexer) (b : UInt8) (r : Bytes) (nlBefore : 
     if eqIgnoreCase w "end".toUTF8.toList then some { len := n, kind := .rKeyword .kEnd, inAsm := false }
     else if eqIgnoreCase w "asm".toUTF8.toList then keep n (.rKeyword .kAsm)
     else keep n .rIdentifier
-  | .asm_text_literal => let (n, k) := asmTextLiteralRest r; keep (1 + n) k
-  | .asm_number_literal => let (n, k) := asmNumberRest b r; keep (1 + n) k
+  | .asm_text_literal => let (n, k) := asmTextLiteralRest r; keep (1 + n) (.rTextLiteral k)
+  | .asm_number_literal => let (n, k) := asmNumberRest b r; keep (1 + n) (.rNumberLiteral k)
   | .unknown => keep 1 .rUnknown
 
 structure RawTok where
